@@ -22,7 +22,10 @@ STRENGTHENED = {
     'C20-m5', 'C20-m6', 'C20-m7',
     # wave 3
     'C01-m9', 'C04-m10', 'C05-m9', 'C07-m10', 'C08-m10', 'C09-m9', 'C10-m10', 'C11-m10', 'C12-m10', 'C14-m10',
-    'C15-m10', 'C16-m10', 'C17-m10', 'C18-m10', 'C20-m8', 'C20-m10'}
+    'C15-m10', 'C16-m10', 'C17-m10', 'C18-m10', 'C20-m8', 'C20-m10',
+    # wave 4
+    'C01-m11', 'C01-m13', 'C02-m11', 'C02-m13', 'C03-m11', 'C03-m12', 'C04-m11', 'C04-m13', 'C05-m12', 'C06-m11',
+    'C08-m12', 'C09-m13', 'C11-m13', 'C12-m13', 'C15-m11', 'C17-m13', 'C18-m12'}
 
 
 def title(notes):
